@@ -3,12 +3,21 @@ C03 — the run result is the one the workflow's declarative meaning prescribes 
 
 The output a run returns is the value of the (single) `output` action (C01); here: that action is emitted only for a
 workflow-output node all of whose required dependencies are resolved and whose completion dependencies are settled, with
-data equal to the output's expressions evaluated over the data model.  The converse ("if exactly one output is producible
-it is the one returned") is validated on generated runs against the declarative oracle of lib/monitors.py and is subject
-to the known finding F11 (stages that can no longer happen are not always declared impossible).
+data equal to the output's expressions evaluated over the data model.  The converse — COMPLETENESS — is proved too
+(`Arca/Proofs/LoopComplete.lean`): once every step has completed and no evaluation failed, a producible output node
+means that an output was returned, and if it is the only producible one the result is its output id with the value of
+its own data expressions (`producible_output_is_returned`); if every output node is unresolvable, "no more outputs" was
+reported exactly once and nothing was returned (`no_producible_output_gives_error`, `nothing_producible_gives_error`).
+The hypotheses are decided by the driver on every real prepared workflow and history (`Arca/Model/LoopCheck.lean`,
+soundness in `Arca/Proofs/LoopCheckSound.lean`) and each one is backed by a counterexample theorem
+(`completeness_hypotheses_needed`, `Arca.Props.C01.quiescent_hypotheses_needed`).  The same statements are validated on
+generated runs of the real engine against the declarative oracle of lib/monitors.py.
 -/
 import Arca.Proofs.LoopDag
 import Arca.Proofs.LoopInv
+import Arca.Proofs.LoopComplete
+import Arca.Props.C01
+import Arca.Proofs.LoopCompleteCex
 
 namespace Arca.Props.C03
 open Arca.Model
@@ -38,5 +47,202 @@ theorem no_output_reported_when_last_output_fails (P : Prepared) (fns : Fns) (or
     (countP Action.isNoMoreOutputs (react P fns ord s e).2 = 1 →
         s.waitingOutputs ≠ [] ∧ (react P fns ord s e).1.waitingOutputs = []) :=
   react_noMoreOutputs P fns ord s e
+
+/-! ### completeness: what is producible is returned, and if nothing is producible an error is -/
+
+/--
+`producible_output_is_returned`.  Legal history starting with `start`, every step completed, no evaluation failure
+reported.  If the workflow-output node `o` is producible in the final graph (its required dependencies are resolved, and
+one of its alternatives if it has any: `Producible`, the condition `result_sound` guarantees of a returned output), then
+an output WAS returned.  If `o` is the only producible output node, the returned result is `o`'s: its output id, and the
+value `v` of `o`'s own data expressions (`resolveIn … d = .ok v`), carried by the `output` action of the history (to
+which `result_sound` applies).
+-/
+theorem producible_output_is_returned (P : Prepared) (fns : Fns) (ord : Order) (hord : OrdOK ord) (hnd : OrdNodup ord)
+    (hall : OrdAll ord) (hP : P.WF3) (input : Val) (rest : List Event)
+    (hl : LegalHistory P fns ord (LoopState.init P) (.start input :: rest))
+    (hr : ∀ e ∈ rest, EventReports P e)
+    (hcomp : ∀ step stage, P.declares step stage → ∃ prev out busy, Event.stepComplete step prev out busy ∈ rest)
+    (hnef : ∀ a ∈ (run P fns ord (.start input :: rest)).2, a.isEvalFailed = false)
+    (o : String) (it : Item) (hit : lookup o P.items = some it) (hk : it.kind = Kind.output)
+    (hprod : Producible P (run P fns ord (.start input :: rest)).1.dag o) :
+    (run P fns ord (.start input :: rest)).1.result.isSome = true ∧
+    ((∀ x, isOutputNode P x → Producible P (run P fns ord (.start input :: rest)).1.dag x → x = o) →
+      ∃ v d, it.data = some d ∧ (run P fns ord (.start input :: rest)).1.result = some (it.output, v) ∧
+        Action.output it.output v ∈ (run P fns ord (.start input :: rest)).2 ∧
+        ∃ g data, resolveIn fns g data d = .ok v) := by
+  have hW := hP.wf2.wf
+  rcases run_core hP fns ord hord hnd hall input rest hl with ⟨a, ha, hef⟩ | ⟨hc, hrd⟩
+  · rw [hnef a ha] at hef; cases hef
+  have hr' : ∀ e ∈ Event.start input :: rest, EventReports P e := by
+    intro e he
+    rcases List.mem_cons.1 he with rfl | he
+    · trivial
+    · exact hr e he
+  have hstep := (Arca.Props.C01.all_steps_completed_nothing_waits_for_a_step P fns ord hord hnd hP.wf2 _ hl hr' (by
+    intro step stage hdd
+    obtain ⟨prev, out, busy, hm⟩ := hcomp step stage hdd
+    exact ⟨prev, out, busy, List.mem_cons_of_mem _ hm⟩)).2.1
+  have hset := all_nodes_settled hP hc hrd hstep
+  have hoo : isOutputNode P o := ⟨it, hit, hk⟩
+  obtain ⟨n, hn⟩ := output_node_find hP hc.gr.dinv hoo
+  have hres : statusIs (run P fns ord (.start input :: rest)).1.dag o St.resolved := by
+    cases hs : n.status with
+    | waiting => exact absurd ⟨n, hn, hs⟩ (hset o)
+    | resolved => exact ⟨n, hn, hs⟩
+    | unres => exact absurd (hc.gr.uj o n hn (fun h => h hoo) hs) (hprod.not_just hc.gr.dinv)
+  have hsome : (run P fns ord (.start input :: rest)).1.result.isSome = true := by
+    rw [← hc.out.done_res]
+    exact hc.out.resolved_done o hoo hres
+  refine ⟨hsome, ?_⟩
+  intro huniq
+  cases hresult : (run P fns ord (.start input :: rest)).1.result with
+  | none => rw [hresult] at hsome; cases hsome
+  | some p =>
+    obtain ⟨oid, v⟩ := p
+    obtain ⟨x, itx, d, h1, h2, h3, h4, h5, h6⟩ := hc.out.res_node oid v hresult
+    obtain ⟨_, hsafe⟩ := runFrom_safe hP.wf2 fns ord hord hnd (.start input :: rest) _ (init_dag_inv P hW)
+      (init_safe_inv P hW) rfl hl
+    have hxo := huniq x ⟨itx, h1, h2⟩ (producible_of_resolved hc.gr.dinv hsafe.closed h5)
+    subst hxo
+    rw [hit] at h1; cases h1
+    subst h3
+    exact ⟨v, d, h4, rfl, run_result_has_action P fns ord _ _ v hresult, h6⟩
+
+/--
+`no_producible_output_gives_error`.  Legal history starting with `start`, no evaluation failure reported.  If every
+workflow-output node is unresolvable in the final graph, then "all outputs marked as unresolvable" was reported exactly
+once and no output was returned.
+-/
+theorem no_producible_output_gives_error (P : Prepared) (fns : Fns) (ord : Order) (hord : OrdOK ord)
+    (hnd : OrdNodup ord) (hall : OrdAll ord) (hP : P.WF3) (input : Val) (rest : List Event)
+    (hl : LegalHistory P fns ord (LoopState.init P) (.start input :: rest))
+    (hnef : ∀ a ∈ (run P fns ord (.start input :: rest)).2, a.isEvalFailed = false)
+    (hnone : ∀ x, isOutputNode P x → statusIs (run P fns ord (.start input :: rest)).1.dag x St.unres) :
+    countP Action.isNoMoreOutputs (run P fns ord (.start input :: rest)).2 = 1 ∧
+    (run P fns ord (.start input :: rest)).1.result = none ∧
+    (∀ id v, Action.output id v ∉ (run P fns ord (.start input :: rest)).2) := by
+  rcases run_core hP fns ord hord hnd hall input rest hl with ⟨a, ha, hef⟩ | ⟨hc, hrd⟩
+  · rw [hnef a ha] at hef; cases hef
+  obtain ⟨h1, ⟨a, ha, hnmo⟩⟩ := core_all_failed hP hc hrd hnone
+  refine ⟨?_, h1, ?_⟩
+  · have hle := run_noMoreOutputs_once P fns ord (.start input :: rest)
+    have hpos : 0 < countP Action.isNoMoreOutputs (run P fns ord (.start input :: rest)).2 := by
+      unfold countP
+      exact List.length_pos_of_mem (List.mem_filter.2 ⟨ha, hnmo⟩)
+    omega
+  · intro id v hm
+    have := run_result P fns ord _ id v hm
+    rw [h1] at this; cases this
+
+/--
+The same with the hypothesis on the dependencies instead of on the statuses: every step completed and NO declared output
+is producible in the final graph.
+-/
+theorem nothing_producible_gives_error (P : Prepared) (fns : Fns) (ord : Order) (hord : OrdOK ord)
+    (hnd : OrdNodup ord) (hall : OrdAll ord) (hP : P.WF3) (input : Val) (rest : List Event)
+    (hl : LegalHistory P fns ord (LoopState.init P) (.start input :: rest))
+    (hr : ∀ e ∈ rest, EventReports P e)
+    (hcomp : ∀ step stage, P.declares step stage → ∃ prev out busy, Event.stepComplete step prev out busy ∈ rest)
+    (hnef : ∀ a ∈ (run P fns ord (.start input :: rest)).2, a.isEvalFailed = false)
+    (hnone : ∀ x, isOutputNode P x → ¬ Producible P (run P fns ord (.start input :: rest)).1.dag x) :
+    countP Action.isNoMoreOutputs (run P fns ord (.start input :: rest)).2 = 1 ∧
+    (run P fns ord (.start input :: rest)).1.result = none ∧
+    (∀ id v, Action.output id v ∉ (run P fns ord (.start input :: rest)).2) := by
+  have hW := hP.wf2.wf
+  refine no_producible_output_gives_error P fns ord hord hnd hall hP input rest hl hnef ?_
+  rcases run_core hP fns ord hord hnd hall input rest hl with ⟨a, ha, hef⟩ | ⟨hc, hrd⟩
+  · rw [hnef a ha] at hef; cases hef
+  have hr' : ∀ e ∈ Event.start input :: rest, EventReports P e := by
+    intro e he
+    rcases List.mem_cons.1 he with rfl | he
+    · trivial
+    · exact hr e he
+  have hstep := (Arca.Props.C01.all_steps_completed_nothing_waits_for_a_step P fns ord hord hnd hP.wf2 _ hl hr' (by
+    intro step stage hdd
+    obtain ⟨prev, out, busy, hm⟩ := hcomp step stage hdd
+    exact ⟨prev, out, busy, List.mem_cons_of_mem _ hm⟩)).2.1
+  have hset := all_nodes_settled hP hc hrd hstep
+  obtain ⟨_, hsafe⟩ := runFrom_safe hP.wf2 fns ord hord hnd (.start input :: rest) _ (init_dag_inv P hW)
+    (init_safe_inv P hW) rfl hl
+  intro x hx
+  obtain ⟨n, hn⟩ := output_node_find hP hc.gr.dinv hx
+  cases hs : n.status with
+  | waiting => exact absurd ⟨n, hn, hs⟩ (hset x)
+  | resolved => exact absurd (producible_of_resolved hc.gr.dinv hsafe.closed ⟨n, hn, hs⟩) (hnone x hx)
+  | unres => exact ⟨n, hn, hs⟩
+
+/-! #### the completeness theorems in the form the driver checks, the need for every hypothesis, non-vacuity -/
+
+open Arca.Model.CompleteCex in
+theorem producible_stmt : ProducibleStmt StartComplete NoEF := by
+  rintro P fns ord h ⟨h1, h2, h3⟩ hW hl hr ⟨input, rest, rfl, hc⟩ hE o ⟨it, hit, hk⟩ hp
+  exact (producible_output_is_returned P fns ord h1 h2 h3 hW.sound input rest hl
+    (fun e he => hr e (List.mem_cons_of_mem _ he)) hc hE o it hit hk hp).1
+
+open Arca.Model.CompleteCex in
+theorem no_output_stmt : NoOutputStmt NoEF := by
+  rintro P fns ord h ⟨h1, h2, h3⟩ hW hl ⟨input, rest, rfl⟩ hE hn
+  obtain ⟨a, b, _⟩ := no_producible_output_gives_error P fns ord h1 h2 h3 hW.sound input rest hl hE hn
+  exact ⟨a, b⟩
+
+/-- the invariant behind the three theorems: after every reaction of a legal history the ready set is empty, unless an
+evaluation failed -/
+theorem ready_empty_stmt : Arca.Model.CompleteCex.ReadyEmptyStmt Prepared.WF3OK := by
+  rintro P fns ord h ⟨h1, h2, h3⟩ hW hl ⟨input, rest, rfl⟩
+  rcases run_core hW.sound fns ord h1 h2 h3 input rest hl with h4 | ⟨_, h4⟩
+  · exact Or.inl h4
+  · exact Or.inr h4
+
+/-- the hypotheses "no evaluation failure" and "every step completed" of the C03 theorems are needed, and the clause
+`output_sink` is needed for the invariant (`Arca/Proofs/LoopCompleteCex.lean`) -/
+theorem completeness_hypotheses_needed :
+    ¬ Arca.Model.CompleteCex.ProducibleStmt Arca.Model.CompleteCex.StartComplete (fun _ _ _ _ => True) ∧
+    ¬ Arca.Model.CompleteCex.ProducibleStmt Arca.Model.CompleteCex.StartsWithStart Arca.Model.CompleteCex.NoEF ∧
+    ¬ Arca.Model.CompleteCex.NoOutputStmt (fun _ _ _ _ => True) ∧
+    ¬ Arca.Model.CompleteCex.ReadyEmptyStmt (Arca.Model.CompleteCex.AllBut "output_sink") :=
+  open Arca.Model.CompleteCex in
+  ⟨producible_needs_no_eval_failure, producible_needs_completion, no_output_needs_no_eval_failure,
+   ready_empty_needs_output_sink⟩
+
+/-! non-vacuity (`CompleteCex.PX`, see C01): with the history in which step `a` ends through its stage `s` the output
+node is producible and it is the only output node, so `producible_output_is_returned` yields the result; with the
+history in which `a` ends through `t` the output node is unresolvable and `no_producible_output_gives_error` applies. -/
+
+open Arca.Model.CompleteCex in
+theorem PX_good_noEF : ∀ a ∈ (run PX fns0 id (.start .null :: HXgood)).2, a.isEvalFailed = false := by decide +kernel
+open Arca.Model.CompleteCex in
+theorem PX_bad_noEF : ∀ a ∈ (run PX fns0 id (.start .null :: HXbad)).2, a.isEvalFailed = false := by decide +kernel
+
+open Arca.Model.CompleteCex in
+theorem PX_output_nodes (x : String) (hx : isOutputNode PX x) : x = "outputs.o" := by
+  obtain ⟨it, hit, hk⟩ := hx
+  have hm := lookup_mem_items hit
+  simp only [PX, List.mem_cons, Prod.mk.injEq, List.not_mem_nil, or_false] at hm
+  rcases hm with ⟨_, rfl⟩ | ⟨_, rfl⟩ | ⟨_, rfl⟩ | ⟨_, rfl⟩ | ⟨h, _⟩
+  · cases hk
+  · cases hk
+  · cases hk
+  · cases hk
+  · exact h
+
+open Arca.Model.CompleteCex in
+example : ∃ v d, (outIt "o").data = some d ∧ (run PX fns0 id (.start .null :: HXgood)).1.result = some ("o", v) ∧
+    Action.output "o" v ∈ (run PX fns0 id (.start .null :: HXgood)).2 ∧ ∃ g data, resolveIn fns0 g data d = .ok v :=
+  (producible_output_is_returned PX fns0 id ordPerm_id.1 ordPerm_id.2.1 ordPerm_id.2.2 PX_wf.sound .null HXgood
+    PX_good_legal (all_eventReportsB (by decide +kernel)) (allCompleteB_sound (by decide +kernel)) PX_good_noEF
+    "outputs.o" (outIt "o") (by simp [PX, lookup]) rfl
+    (producible_iff_b _ _ _ (by decide +kernel) (by decide +kernel))).2
+    (fun x hx _ => PX_output_nodes x hx)
+
+open Arca.Model.CompleteCex in
+example : countP Action.isNoMoreOutputs (run PX fns0 id (.start .null :: HXbad)).2 = 1 ∧
+    (run PX fns0 id (.start .null :: HXbad)).1.result = none ∧
+    (∀ oid v, Action.output oid v ∉ (run PX fns0 id (.start .null :: HXbad)).2) :=
+  no_producible_output_gives_error PX fns0 id ordPerm_id.1 ordPerm_id.2.1 ordPerm_id.2.2 PX_wf.sound .null HXbad
+    PX_bad_legal PX_bad_noEF (by
+      intro x hx
+      rw [PX_output_nodes x hx]
+      exact stIs_iff.1 (by decide +kernel))
 
 end Arca.Props.C03
